@@ -263,7 +263,7 @@ var integer64 = []*instructionType{
 		effects: func(i instruction) []expr.Effect {
 			val := exprtools.Lts(
 				regLoad(rs1, i, width64),
-				immConst(immTypeI, i),
+				immConst(immTypeI, i, width64),
 				expr.One,
 				expr.Zero,
 				width64,
@@ -279,7 +279,7 @@ var integer64 = []*instructionType{
 		effects: func(i instruction) []expr.Effect {
 			val := expr.NewLess(
 				regLoad(rs1, i, width64),
-				immConst(immTypeI, i),
+				immConst(immTypeI, i, width64),
 				expr.One,
 				expr.Zero,
 				width64,
